@@ -90,13 +90,46 @@ func linOf(v ssa.Value, bind map[*ssa.FreeVar]ssa.Value, depth int) (linForm, bo
 		switch c := x.X.(type) {
 		case *ssa.FreeVar:
 			if b, ok := bind[c]; ok {
-				return linForm{b, 0}, true
+				return linForm{rootCell(b, bind, 0), 0}, true
 			}
 		case *ssa.Alloc:
-			return linForm{c, 0}, true
+			return linForm{rootCell(c, bind, 0), 0}, true
 		}
+	case *ssa.Extract, *ssa.Parameter, *ssa.Call:
+		return linForm{v, 0}, true
 	}
 	return linForm{}, false
+}
+
+// rootCell: a variable that is assigned exactly once, from another variable or from a
+// plain value (a parameter copy made by an inlined helper, a result of a call), stands
+// for that origin.
+func rootCell(c ssa.Value, bind map[*ssa.FreeVar]ssa.Value, depth int) ssa.Value {
+	al, ok := c.(*ssa.Alloc)
+	if !ok || depth > 6 {
+		return c
+	}
+	v := singleStore(al)
+	if v == nil {
+		return c
+	}
+	v = stripConv(v)
+	switch x := v.(type) {
+	case *ssa.UnOp:
+		if x.Op == token.MUL {
+			switch d := x.X.(type) {
+			case *ssa.Alloc:
+				return rootCell(d, bind, depth+1)
+			case *ssa.FreeVar:
+				if b, ok := bind[d]; ok {
+					return rootCell(b, bind, depth+1)
+				}
+			}
+		}
+	case *ssa.Extract, *ssa.Parameter, *ssa.Call:
+		return v
+	}
+	return c
 }
 
 // cellOfLoad: v is a load of a captured or local variable; returns its cell.
